@@ -232,6 +232,7 @@ func cmdLocals(args []string) {
 		line int
 	}
 	want := map[site]string{}
+	wantSig := map[site]string{}
 	for _, k := range sortedKeys(l.cs.Funcs) {
 		fc := l.cs.Funcs[k]
 		fn := l.funcs[contractFuncKey(fc)]
@@ -239,16 +240,25 @@ func cmdLocals(args []string) {
 			continue
 		}
 		loc := declaredLocals(fn)
-		if len(loc) == 0 {
-			continue
-		}
 		st := site{fc.File, fc.Line}
-		if _, ok := want[st]; !ok {
+		if _, ok := want[st]; !ok && len(loc) > 0 {
 			want[st] = strings.Join(loc, ", ")
+		}
+		if ls := loopStmts(fn); len(ls) > 1 {
+			if _, ok := wantSig[st]; !ok {
+				wantSig[st] = strings.Join(loopSigs(fn.Prog.Fset, ls), " ")
+			}
 		}
 	}
 	byFile := map[string][]site{}
+	allSites := map[site]bool{}
 	for st := range want {
+		allSites[st] = true
+	}
+	for st := range wantSig {
+		allSites[st] = true
+	}
+	for st := range allSites {
 		byFile[st.file] = append(byFile[st.file], st)
 	}
 	for file, sites := range byFile {
@@ -265,16 +275,19 @@ func cmdLocals(args []string) {
 				fmt.Printf("%s:%d: not a func line, skipped\n", file, st.line)
 				continue
 			}
-			newLine := "//@   locals " + want[st]
-			if idx+1 < len(lines) && strings.HasPrefix(strings.TrimSpace(lines[idx+1]), "//@   locals ") {
-				if lines[idx+1] != newLine {
-					lines[idx+1] = newLine
-					n++
-				}
-				continue
+			// drop the existing locals / loopsigs lines of this block, then write the current ones
+			for idx+1 < len(lines) && (strings.HasPrefix(strings.TrimSpace(lines[idx+1]), "//@   locals ") || strings.HasPrefix(strings.TrimSpace(lines[idx+1]), "//@   loopsigs ")) {
+				lines = append(lines[:idx+1], lines[idx+2:]...)
 			}
-			lines = append(lines[:idx+1], append([]string{newLine}, lines[idx+1:]...)...)
-			n++
+			var ins []string
+			if w := want[st]; w != "" {
+				ins = append(ins, "//@   locals "+w)
+			}
+			if w := wantSig[st]; w != "" {
+				ins = append(ins, "//@   loopsigs "+w)
+			}
+			lines = append(lines[:idx+1], append(ins, lines[idx+1:]...)...)
+			n += len(ins)
 		}
 		if n > 0 {
 			os.WriteFile(file, []byte(strings.Join(lines, "\n")), 0o644)
